@@ -9,8 +9,8 @@ REG = dict(category="model_checking",
     "(two SHA-256 hashes of the seed through the Shallue-van de Woestijne map written from the sage formulae, blinded = unblinded + blind*G), the 8/9 and 10/11 "
     "square-y codecs, tally (sum pos - sum neg = infinity) and the two blind-sum helpers in plain TLA+ on BigNat/Curve. TLC (a) enumerates the order-13 (thorough: "
     "7, 199) test group completely -- every blind residue and overflow encoding x every value residue x every injected generator for commit (the 'fails only at "
-    "infinity' clause has its witnesses b + v*h = 0 here), every pair of lists of <= 2 commitments for tally, two-item balancing flows over all generator/value "
-    "pairs, all 256 prefix bytes for both parsers -- with design-level invariants (creation fails iff b >= n or b*G = -v*H; created commitments open; helper "
+    "infinity' clause has its witnesses b + v*h = 0 here), all pairs of unordered lists of <= 2 commitments (plus ordered and 3-element lists and curve points outside "
+    "the subgroup) for tally, two-item balancing flows over all value pairs for the generator pairs (h, h) and (h, 5h), both parsers -- with design-level invariants (creation fails iff b >= n or b*G = -v*H; created commitments open; helper "
     "blinds => tally iff the value parts cancel as a group equation) and replays every record into the small-group build; (b) generates real-group records: "
     "edge blinds x edge values x generators {static h, parsed h, seed-derived, blinded, parsed both signs, +-G (infinity witnesses)}, derivation for edge and "
     "random seeds with edge blinds, the map on edge field elements, prefix 0..255 x 15 x-classes for both parsers, blind-sum / blind-generator-blind-sum lists with "
